@@ -4,7 +4,7 @@ from . import stubs
 
 ID = 'C07'
 EXPLORE = True
-FUNCTIONS = ['flowdyn.integration.timemodel.{solve,restart,_solve,_check_end,add_res,calcrhs,_parse_monitors,_remove_monitor_output}',
+FUNCTIONS = ['flowdyn.field.fdata.{__init__,copy} (scalar and vector components)', 'flowdyn.integration.timemodel.{solve,restart,_solve,_check_end,add_res,calcrhs,_parse_monitors,_remove_monitor_output}',
              'flowdyn.integration._coreiterative.{reset,nit,totnit}',
              'flowdyn.integration.{explicit,rk2,rkmodel,LSrkmodelHH,implicit,trapezoidal,gear}.step',
              'flowdyn.integration.implicitmodel.{calc_jacobian,solve_implicit}',
@@ -47,6 +47,7 @@ def configs(tier):
             out.append({'integrator': integ, 'S': 2, 'K': 2, 'stop': 'maxit', 'call': 'restart', 'it0': 5})
             out.append({'integrator': integ, 'S': 1, 'K': 2, 'stop': 'maxit', 'call': 'solve', 'dtlocal': True})
             out.append({'integrator': integ, 'S': 2, 'K': 1, 'stop': 'none', 'call': 'solve', 'max_depth': 9})
+    out.append({'part': 'copy'})
     return out
 
 
@@ -60,7 +61,36 @@ def _dens(B, arrays):
     return prove.denominators(ts)
 
 
+def _copy(cfg, B):
+    """the defensive copies behind 'the caller's initial field is never modified': fdata(...) and fdata.copy() own their arrays,
+    for scalar components and for the (2, ncell) vector component of the 2D model"""
+    fd = B.fd
+    model = fd.euler.euler2d(gamma=B.const('7/5'))
+    mesh = fd.mesh2d.mesh2d(2, 1, B.pos('lx'), B.pos('ly'))
+    n = 2
+    orig = [B.vararray('r', n), B.vararray('m', (2, n)), B.vararray('e', n)]
+    data = [d.copy() for d in orig]
+    t0 = B.var('t0')
+    f = fd.field.fdata(model, mesh, data, t=t0, it=3)
+    for d in data:          # the caller keeps using (and modifying) the arrays it passed
+        d += 1
+    for k, nm in enumerate(('rho', 'mom', 'E')):
+        B.eq_arrays('fdata-owns-its-arrays:' + nm, f.data[k], orig[k])
+    g = f.copy()
+    for d in g.data:
+        d *= 2
+    g.time = g.time + 1
+    g.it = 7
+    for k, nm in enumerate(('rho', 'mom', 'E')):
+        B.eq_arrays('copy-is-deep:' + nm, f.data[k], orig[k])
+        B.eq_arrays('copy-has-the-values:' + nm, g.data[k], 2 * orig[k])
+    B.ob('copy-keeps-time', 'eq', f.time, t0)
+    B.ob('copy-keeps-it', 'true', B.boolean(f.it == 3))
+
+
 def harness(cfg, B):
+    if cfg.get('part') == 'copy':
+        return _copy(cfg, B)
     fd = B.fd
     np = B.np
     n = 2
